@@ -11,43 +11,48 @@ var Properties = map[string]PropertyDef{
 	"C07": {Cases: C07Cases, Config: func(tier string) Config {
 		c := Config{
 			Functions: []string{"gennaro rounds", "lindell22 signing rounds", "redistribute/hjky rounds", "algebrautils.RandomNonIdentity / Field.Random call sites of every round (observed through the reader monitor)", "kw.Scheme.DealAndRevealDealerFunc (columnFactory.Random)"},
-			Bounds:  map[string]any{"protocols": "Gennaro DKG, Lindell22 signing, redistribute (refresh)", "clauses": "reader discipline on every symbolic path; dependence of PK / joint nonce point / shares on each party's stream (solver witness); nonce-commitment injectivity and independence from message and other parties (validity)"},
-			Assumes: []string{"a party's stream = the io.Reader passed to its constructor; streams of distinct parties are independent symbolic variables", "byte-level randomness (commitment witnesses, session contributions) is visible only as 'read from the right reader'"},
-			Outside: []string{"session setup, OT, RVOLE, DKLs23, Lindell17, BLS", "randomness obtained without going through the supplied io.Reader and without sampling a field/group element (invisible to the monitor)", "sequences of sessions on the same key material"},
+			Bounds:    map[string]any{"protocols": "Gennaro DKG, Lindell22 signing, redistribute (refresh)", "clauses": "reader discipline on every symbolic path; dependence of PK / joint nonce point / shares on each party's stream (solver witness); nonce-commitment injectivity and independence from message and other parties (validity)"},
+			Assumes:   []string{"a party's stream = the io.Reader passed to its constructor; streams of distinct parties are independent symbolic variables", "byte-level randomness (commitment witnesses, session contributions) is visible only as 'read from the right reader'"},
+			Outside:   []string{"session setup, OT, RVOLE, DKLs23, Lindell17, BLS", "randomness obtained without going through the supplied io.Reader and without sampling a field/group element (invisible to the monitor)", "sequences of sessions on the same key material"},
 		}
 		return c
 	}},
 	"C08": {Cases: C08Cases, Config: func(tier string) Config {
 		c := Config{
 			Functions: []string{"maurer09.Protocol.ComputeProverCommitment/ComputeProverResponse/Verify/RunSimulator/Extract/ValidateStatement", "dlog/schnorr.NewProtocol", "okamoto.NewProtocol", "batch_schnorr.Protocol.*", "sigand.Compose + Protocol.*", "sigor.Compose + Protocol.*", "compiler.Compile", "fiatshamir.Protocol.NewProver/NewVerifier", "fiatshamir Prover.Prove / Verifier.Verify", "zkmodule.Prove/Verify", "algebrautils.ScalarMul (double-and-add on symbolic bases)"},
-			Bounds:  map[string]any{"witnesses, prover nonces, tampering offsets": "symbolic", "challenges": "5 concrete 16-byte challenges (0, 1, 2^128-1, high-bit, random)", "extractor": "arbitrary statement, commitment and responses; 10 (quick) / 20 (thorough) ordered challenge pairs", "compositions": "batch k=1..3 (5), AND k=1..3, OR n=2,3 with every witness position"},
-			Assumes: []string{"Fiat–Shamir challenges are real transcript outputs over interned handles (random-oracle idealisation): context-binding clauses are class B", "fresh random draws non-zero"},
-			Outside: []string{"every Paillier-/ring-based proof (paillier/*, prm, cggmp21/*): big-integer arithmetic", "ElGamal-based proofs (not yet harnessed)", "Fischlin and randomised Fischlin compilers, interactive zk compiler", "byte-level malleability of encoded proofs beyond truncation/extension (C12)"},
+			Bounds:    map[string]any{"witnesses, prover nonces, tampering offsets": "symbolic", "challenges": "5 concrete 16-byte challenges (0, 1, 2^128-1, high-bit, random)", "extractor": "arbitrary statement, commitment and responses; 10 (quick) / 20 (thorough) ordered challenge pairs", "compositions": "batch k=1..3 (5), AND k=1..3, OR n=2,3 with every witness position"},
+			Assumes:   []string{"Fiat–Shamir challenges are real transcript outputs over interned handles (random-oracle idealisation): context-binding clauses are class B", "fresh random draws non-zero"},
+			Outside:   []string{"every Paillier-/ring-based proof (paillier/*, prm, cggmp21/*): big-integer arithmetic", "ElGamal-based proofs (not yet harnessed)", "Fischlin and randomised Fischlin compilers, interactive zk compiler", "byte-level malleability of encoded proofs beyond truncation/extension (C12)"},
 		}
 		return c
 	}},
 	"C06": {Cases: C06Cases, Config: func(tier string) Config {
 		c := Config{
 			Functions: []string{"redistribute.NewParticipant/WithTrustedAnchorID", "redistribute.Participant.Round1/Round2/Round3", "hjky.Participant.Round1/Round2", "session.Context.SubContext", "feldman.Scheme.Deal/Verify/ConvertShareToAdditive/ConvertLiftedShareToAdditive", "mpc.NewBaseShard", "accessstructures.InducedMSP", "trusteddealer.Deal"},
-			Bounds:  map[string]any{"histories": "every single operation from 3 start structures; all pairs (first op × 4 second ops) from threshold(2,3) (quick); also from the CNF start and all triples (thorough)", "operations": "refresh, recover a lost share (2 positions), redistribute to 5 structures incl. different holder sets, with/without trusted anchor", "shares, zero sharings, re-sharing randomness": "symbolic"},
-			Assumes: []string{"fresh random draws non-zero", "ROM idealisation for transcript hashes", "the documented measure-zero retry abort of the zero sharing is excluded"},
-			Outside: []string{"networked runner", "histories longer than 3", "signing after each epoch (covered separately by C01 on dealt shards)", "real curves"},
+			Bounds:    map[string]any{"histories": "every single operation from 3 start structures; all pairs (first op × 4 second ops) from threshold(2,3) (quick); also from the CNF start and all triples (thorough)", "operations": "refresh, recover a lost share (2 positions), re-key by each minimal qualified set, redistribute to 6 structures incl. different holder sets and a 3-clause CNF whose quorums are smaller than its MSP dimension, with/without trusted anchor; one previous holder with a forged self-consistent shard (every position, no anchor)", "shares, zero sharings, re-sharing randomness": "symbolic"},
+			Assumes:   []string{"fresh random draws non-zero", "ROM idealisation for transcript hashes", "the documented measure-zero retry abort of the zero sharing is excluded"},
+			Outside:   []string{"networked runner", "histories longer than 3", "signing after each epoch (covered separately by C01 on dealt shards)", "real curves"},
 		}
 		return c
 	}},
 	"C01": {Cases: C01Cases, Config: func(tier string) Config {
 		c := Config{
 			Functions: []string{"signing.NewCosigner", "Cosigner.Round1/Round2/Round3/ComputePartialSignature/computeEffectivePartialPublicKeys", "signing.NewAggregator/NewCosigningAggregator", "Aggregator.Aggregate", "hjky.Participant.Round1/Round2", "lindell22 dlogProve/dlogVerify (Fiat–Shamir Schnorr PoK)", "hashcom Commit/Open (real BLAKE2b over handles)", "schnorrlike.VerifierTrait.Verify", "feldman.Scheme.ConvertShareToAdditive/ConvertLiftedShareToAdditive", "kw/msp ReconstructionCoefficients", "przs.SampleZeroShare", "trusteddealer.Deal", "keygen.NewShard"},
-			Bounds:  map[string]any{"protocol": "Lindell22 with the vanilla (configurable) Schnorr variant, both response signs, Fiat–Shamir compiler, round-by-round API", "structures/quorums": "threshold, unanimity, CNF, hierarchical, non-ideal gate tree; minimal quorums and minimal+1 (≤3 quorums per structure in quick)", "shares, nonces, zero shares": "symbolic mod the real group order", "messages": "2 concrete messages"},
-			Assumes: []string{"random-oracle idealisation for transcript/commitment hashes (interned handles)", "fresh random draws are non-zero", "the measure-zero refusals the code itself documents are excluded: effective partial public key = identity (retry abort), aggregated s = 0 or R = identity (shown to be the only way an aggregator can refuse)"},
-			Outside: []string{"DKLs23 (OT over scalar bytes, x-coordinate of R), Lindell17 (Paillier), Boldyreva BLS (pairing), CGGMP21", "BIP-340 / Mina variants (parity of an affine coordinate)", "networked runner API", "real curves"},
+			Bounds:    map[string]any{"protocol": "Lindell22 with the vanilla (configurable) Schnorr variant, both response signs, Fiat–Shamir compiler, round-by-round API", "structures/quorums": "threshold, unanimity, CNF, hierarchical, non-ideal gate tree; minimal quorums and minimal+1 (≤3 quorums per structure in quick)", "shares, nonces, zero shares": "symbolic mod the real group order", "messages": "2 concrete messages"},
+			Assumes:   []string{"random-oracle idealisation for transcript/commitment hashes (interned handles)", "fresh random draws are non-zero", "the measure-zero refusals the code itself documents are excluded: effective partial public key = identity (retry abort), aggregated s = 0 or R = identity (shown to be the only way an aggregator can refuse)"},
+			Outside:   []string{"DKLs23 (OT over scalar bytes, x-coordinate of R), Lindell17 (Paillier), Boldyreva BLS (pairing), CGGMP21", "BIP-340 / Mina variants (parity of an affine coordinate)", "networked runner API", "real curves"},
 		}
 		return c
 	}},
 	"C04": {Cases: C04Cases, Config: func(tier string) Config {
 		c := Config{
-			Functions: []string{"gennaro.Participant.Round1/Round2/Round3 (consuming rounds under deviation)", "gennaro message Validate", "network.ValidateIncomingMessages", "pedersen.Scheme.Verify", "feldman.Scheme.Verify", "fiatshamir Verifier.Verify / zkmodule.Verify", "batch_schnorr / okamoto Verify", "base.GetMaliciousIdentities / ShouldAbort", "mpc.NewBaseShard"},
-			Bounds:  map[string]any{"deviation": "one field of one message of one sender (per-recipient for unicasts, uniform for broadcasts), offset δ symbolic with δ≠0", "faults": "unicast share secret/blinding component, Pedersen / Feldman vector entries (proof unchanged), Feldman vector re-proved by the deviator for another column, vectors truncated/extended by one entry, dropped broadcast", "structures": "threshold, CNF, non-ideal gate tree (3 parties); more in thorough"},
+			Functions: []string{"gennaro.Participant.Round1/Round2/Round3 (consuming rounds under deviation)", "gennaro message Validate", "network.ValidateIncomingMessages", "pedersen.Scheme.Verify", "feldman.Scheme.Verify", "fiatshamir Verifier.Verify / zkmodule.Verify", "batch_schnorr / okamoto Verify", "base.GetMaliciousIdentities / ShouldAbort", "mpc.NewBaseShard",
+				"redistribute.Participant.Round2/Round3 and Round1Broadcast/Round1P2P/Round2Broadcast/Round2P2P.Validate under deviation", "hjky.Participant.Round2 under deviation", "lindell22 signing.Cosigner.Round2/Round3, Aggregator.Aggregate under deviation"},
+			Bounds: map[string]any{"deviation": "one field of one message of one sender (per-recipient for unicasts, uniform for broadcasts), or the deviator's whole dealing / starting shard replaced by a self-consistent forgery; offset δ symbolic with δ≠0",
+				"faults gennaro":      "unicast share secret/blinding component, Pedersen / Feldman vector entries (proof unchanged), Feldman vector re-proved by the deviator for another column, vectors truncated/extended by one entry, dropped broadcast",
+				"faults lindell22":    "partial signature response / nonce commitment, opened nonce, zero-sharing dealing replaced by a consistent dealing of δ (deviator at each of the 3 positions), zero share shifted",
+				"faults redistribute": "zero-sharing dealing of δ, zero share / zero vector entry shifted, next-share contribution shifted / extended / truncated, next / previous / zero verification vector entries shifted, forged self-consistent previous shard; refresh, recovery with and without anchor, redistribution to multi-row structures; deviator at every previous-holder position",
+				"structures":          "threshold, CNF, non-ideal gate tree (3 parties); more in thorough"},
 			Assumes: []string{"class A faults (share components, re-proved vector): verdict for every δ≠0", "class B faults (vector entry with unchanged proof): rejected under the random-oracle idealisation (a changed hashed element changes the challenge bytes)", "fresh random draws non-zero"},
 			Outside: []string{"DKLs23/RVOLE/OT, Lindell17, BLS, CGGMP21", "echo-broadcast enforcement (C11)", "hangs", "bit flips inside encodings (C12)", "replays across parallel sessions"},
 		}
@@ -56,18 +61,18 @@ var Properties = map[string]PropertyDef{
 	"C03": {Cases: C03Cases, Config: func(tier string) Config {
 		c := Config{
 			Functions: []string{"gennaro.NewParticipant", "gennaro.Participant.Round1/Round2/Round3", "pedersen.Scheme.DealRandomAndRevealDealerFunc/Verify", "feldman.Scheme.Verify", "okamoto.NewProtocol", "batch_schnorr.NewProtocol", "sigand.Compose", "maurer09.Protocol.*", "fiatshamir.NewCompiler/Prover.Prove/Verifier.Verify", "zkmodule.Prove/Verify", "pedersencom.ExtractCommitmentKey", "session.NewContext", "mpc.NewBaseShard/NewBasePublicMaterial", "trusteddealer.Deal", "feldman.Scheme.Reconstruct/ReconstructInTheExponent"},
-			Bounds:  map[string]any{"parties": "2–3 (quick) / up to 4 (thorough)", "structures": "threshold, unanimity, CNF, hierarchical, non-ideal gate tree", "every party's random stream": "independent symbolic variables", "compiler": "Fiat–Shamir"},
-			Assumes: []string{"random-oracle idealisation: transcript/hash outputs depend on hashed elements only through equality (interned handles); the Pedersen generator h = hash-to-group output has an unknown symbolic discrete log, h ∉ {identity, g}", "fresh random draws are non-zero", "sigand's goroutines interleave as under GOMAXPROCS=1"},
-			Outside: []string{"real curves", "Fischlin compilers", "networked runner", "store/reload (C12)", "Lindell17 key generation (Paillier)", "Canetti DKG (hash commitments over byte strings: class B)"},
+			Bounds:    map[string]any{"parties": "2–3 (quick) / up to 4 (thorough)", "structures": "threshold, unanimity, CNF, hierarchical, non-ideal gate tree", "every party's random stream": "independent symbolic variables", "compiler": "Fiat–Shamir"},
+			Assumes:   []string{"random-oracle idealisation: transcript/hash outputs depend on hashed elements only through equality (interned handles); the Pedersen generator h = hash-to-group output has an unknown symbolic discrete log, h ∉ {identity, g}", "fresh random draws are non-zero", "sigand's goroutines interleave as under GOMAXPROCS=1"},
+			Outside:   []string{"real curves", "Fischlin compilers", "networked runner", "store/reload (C12)", "Lindell17 key generation (Paillier)", "Canetti DKG (hash commitments over byte strings: class B)"},
 		}
 		return c
 	}},
 	"C10": {Cases: C10Cases, Config: func(tier string) Config {
 		c := Config{
 			Functions: []string{"session.NewContext", "session.Context.SubContext/Seeds/Transcript/SessionID/Clone", "przs.SampleZeroShare", "additive.NewShare", "hagrid transcript (real cSHAKE, run natively)"},
-			Bounds:  map[string]any{"quorum": "2..4 parties (quick) / 2..5 (thorough) × 3 ID pools, every sub-quorum of size ≥ 2", "pairwise PRG outputs": "symbolic (one variable per pairwise stream position)", "seeds": "concrete"},
-			Assumes: []string{"a pairwise PRG stream is a deterministic function of its seed: both ends that read the same bytes obtain the same symbolic element (random-function model of the PRG)", "session ids / transcript states are compared as real hash outputs (class B: no solver claim beyond determinism)"},
-			Outside: []string{"the interactive setup rounds (commit/open of seed contributions): hash level", "the runner", "distinctness of seeds across sessions (hash)"},
+			Bounds:    map[string]any{"quorum": "2..4 parties (quick) / 2..5 (thorough) × 3 ID pools, every sub-quorum of size ≥ 2", "pairwise PRG outputs": "symbolic (one variable per pairwise stream position)", "seeds": "concrete"},
+			Assumes:   []string{"a pairwise PRG stream is a deterministic function of its seed: both ends that read the same bytes obtain the same symbolic element (random-function model of the PRG)", "session ids / transcript states are compared as real hash outputs (class B: no solver claim beyond determinism)"},
+			Outside:   []string{"the interactive setup rounds (commit/open of seed contributions): hash level", "the runner", "distinctness of seeds across sessions (hash)"},
 		}
 		if tier == "thorough" {
 			c.Moduli = []string{"secp256k1", "ed25519"}
@@ -77,9 +82,9 @@ var Properties = map[string]PropertyDef{
 	"C15": {Cases: C15Cases, Config: func(tier string) Config {
 		c := Config{
 			Functions: []string{"schnorrlike/schnorr.NewScheme/Signer/Verifier", "schnorrlike.SignerTrait.Sign", "schnorrlike.VerifierTrait.Verify", "schnorr.Variant.ComputeNonceCommitment/ComputeChallenge/ComputeResponse", "schnorrlike.ComputeGenericNonceCommitment/ComputeGenericResponse/MakeGenericChallenge", "ecdsa.NewSignature"},
-			Bounds:  map[string]any{"private key, nonce, tampering offset": "symbolic over GF(q)", "configurations": "response sign ±, byte order, sha256/sha512, 3 messages"},
-			Assumes: []string{"challenge = real hash of interned handles (random-oracle idealisation): equal hashed values ⇔ equal handles", "fresh nonces are non-zero (probability 1/q excluded)"},
-			Outside: []string{"ECDSA verification/recovery/normalisation (crypto/ecdsa, integer comparison of scalars)", "BIP-340, Mina (parity of an affine coordinate)", "BLS (pairing)", "published vectors"},
+			Bounds:    map[string]any{"private key, nonce, tampering offset": "symbolic over GF(q)", "configurations": "response sign ±, byte order, sha256/sha512, 3 messages"},
+			Assumes:   []string{"challenge = real hash of interned handles (random-oracle idealisation): equal hashed values ⇔ equal handles", "fresh nonces are non-zero (probability 1/q excluded)"},
+			Outside:   []string{"ECDSA verification/recovery/normalisation (crypto/ecdsa, integer comparison of scalars)", "BIP-340, Mina (parity of an affine coordinate)", "BLS (pairing)", "published vectors"},
 		}
 		if tier == "thorough" {
 			c.Moduli = []string{"secp256k1", "ed25519", "pallas"}
@@ -90,9 +95,9 @@ var Properties = map[string]PropertyDef{
 	"C16": {Cases: C16Cases, Config: func(tier string) Config {
 		c := Config{
 			Functions: []string{"elgamal.NewSecretKey/NewPublicKey", "elgamal.PublicKey.EncryptWithNonce/Representative/IdentityNoise/ReRandomise/Shift/CiphertextOp/CiphertextOpInv/CiphertextScalarOp/PlaintextOp/NonceOp", "elgamal.SecretKey.Decrypt/EncryptWithNonce/IdentityNoise/ReRandomise", "encryption/internal/gift.Encrypt/ReRandomise/Shift", "constructions.FiniteDirectPowerModule"},
-			Bounds:  map[string]any{"sk, plaintexts, nonces, scalar": "symbolic over GF(q)/the group", "operation sequences": "all sequences over {op,inv,scalar,shift,rerand} of length ≤2 (quick) / ≤4 (thorough)"},
-			Assumes: []string{"group modelled as (Z/q,+) by isomorphism; sk ∉ {0,1} and nonces ≠ 0 as the constructors require"},
-			Outside: []string{"Paillier in all flavours, znstar, modular, crt (big-integer arithmetic on saferith: DESIGN §6 barrier 1)"},
+			Bounds:    map[string]any{"sk, plaintexts, nonces, scalar": "symbolic over GF(q)/the group", "operation sequences": "all sequences over {op,inv,scalar,shift,rerand} of length ≤2 (quick) / ≤4 (thorough)"},
+			Assumes:   []string{"group modelled as (Z/q,+) by isomorphism; sk ∉ {0,1} and nonces ≠ 0 as the constructors require"},
+			Outside:   []string{"Paillier in all flavours, znstar, modular, crt (big-integer arithmetic on saferith: DESIGN §6 barrier 1)"},
 		}
 		if tier == "thorough" {
 			c.Moduli = []string{"secp256k1", "ed25519", "p256"}
@@ -103,9 +108,9 @@ var Properties = map[string]PropertyDef{
 	"C18": {Cases: C18Cases, Config: func(tier string) Config {
 		c := Config{
 			Functions: []string{"pedersencom.NewCommitmentKeyUnchecked", "pedersencom.CommitmentKey.CommitWithWitness/Open/CommitmentOp/CommitmentScalarOp/CommitmentOpInv/ReRandomise/Shift/MessageOp/WitnessOp", "pedersencom.NewTrapdoorKey", "TrapdoorKey.CommitWithWitness/Equivocate/Export", "commitments/internal.GenericOpen", "indcpacom.NewCommitmentKey", "indcpacom.CommitmentKey.CommitWithWitness/Open"},
-			Bounds:  map[string]any{"message, witness, second generator h, alternative opening, offsets δ": "symbolic", "trapdoor λ": "4 concrete values (Equivocate inverts it)"},
-			Assumes: []string{"h ∉ {identity, g} (what NewCommitmentKeyUnchecked enforces)", "'changed key ⇒ reject' is claimed for witness ≠ 0 (with witness 0 the commitment does not depend on h)"},
-			Outside: []string{"intcom (RSA-group integers)", "hash commitments are checked by the E1 part of C18", "key extraction from transcripts (hash, class B)"},
+			Bounds:    map[string]any{"message, witness, second generator h, alternative opening, offsets δ": "symbolic", "trapdoor λ": "4 concrete values (Equivocate inverts it)"},
+			Assumes:   []string{"h ∉ {identity, g} (what NewCommitmentKeyUnchecked enforces)", "'changed key ⇒ reject' is claimed for witness ≠ 0 (with witness 0 the commitment does not depend on h)"},
+			Outside:   []string{"intcom (RSA-group integers)", "hash commitments are checked by the E1 part of C18", "key extraction from transcripts (hash, class B)"},
 		}
 		if tier == "thorough" {
 			c.Moduli = []string{"secp256k1", "ed25519", "bls12381"}
@@ -145,7 +150,7 @@ var Properties = map[string]PropertyDef{
 		c := Config{
 			Functions: []string{"kw.NewScheme", "kw.Scheme.Deal/DealAndRevealDealerFunc", "kw.NewDealerFunc", "kw.Scheme.Reconstruct", "kw.Scheme.CanReconstruct", "kw.Scheme.ConvertShareToAdditive", "kw.Share.Add/ScalarMul",
 				"msp.MSP.Accepts/ReconstructionVector/ReconstructionCoefficients", "mat.SolveLeft/solveAugmented", "mat.DotProduct", "accessstructures.InducedMSP", "threshold/unanimity/cnf/hierarchical/boolexpr.InducedMSP", "IsQualified of every family"},
-			Bounds: map[string]any{"shareholders": "≤4 (quick) / ≤5 (thorough), all subsets", "ids": "three concrete pools (dense, sparse-unsorted, large)", "secret,randomness": "symbolic over GF(q), q = real group order"},
+			Bounds:  map[string]any{"shareholders": "≤4 (quick) / ≤5 (thorough), all subsets", "ids": "three concrete pools (dense, sparse-unsorted, large)", "secret,randomness": "symbolic over GF(q), q = real group order"},
 			Assumes: []string{"shareholder IDs, policies and MSP matrices are concrete per case (symbolic IDs need inverses: DESIGN §6 barrier 2)"},
 			Outside: []string{"policies on more than 5 shareholders", "symbolic shareholder IDs", "statistical uniformity of shares"},
 		}
